@@ -406,7 +406,8 @@ C12_SETUP = ["init %s I3" % hexs("a"), "init %s F4004000000000000" % hexs("b"), 
              "setfn %s needfloat" % hexs("nf"), "setfn %s neednumber" % hexs("nn"), "setfn %s konst:I-7" % hexs("min"),
              "init %s T()" % hexs("e0"), "init %s T(I7)" % hexs("t1"), "init %s T(T(I1,E),S,T())" % hexs("t3"), "init %s F7ff8000000000000" % hexs("qn"),
              "init %s S" % hexs("s0"), "init %s I-9223372036854775808" % hexs("mn"), "init %s F8000000000000000" % hexs("nz"), "init %s Ffff0000000000000" % hexs("ni"),
-             "setfn %s konst:T()" % hexs("mk0"), "setfn %s konst:T(E)" % hexs("mk1")]
+             "setfn %s konst:T()" % hexs("mk0"), "setfn %s konst:T(E)" % hexs("mk1"),
+             "init %s I40" % hexs("true"), "init %s I41" % hexs("7"), "init %s I42" % hexs("1 + 1"), "init %s I43" % hexs("a + b"), "init %s I44" % hexs(" a"), "init %s I45" % hexs("f(a)")]
 C12_STRINGS = ["a = 1; a", "1", "1.5", '"s"', "true", "(1,2)", "()", "", "a", "b", "c", "x", "y", "z", "1 +", ")", "(",
                "a += 1", "a + b", "f(a)", "g(1,2)", "h(1)", "a = 5", "q = 1; q", "q", "9223372036854775807", "2^62",
                "1/0", "a; b; c", "a,b", "y == (1,2)", "c + \"z\"", "!x", "-a", "\"", "1e400", "0x10", "a = \"s\"",
@@ -424,6 +425,7 @@ C12_STRINGS = ["a = 1; a", "1", "1.5", '"s"', "true", "(1,2)", "()", "", "a", "b
                "e0", "t1", "t3", "qn", "s0", "mn", "nz", "ni", "mk0()", "mk1()", "f(e0)", "(e0, t1)", "e0 == t1", "qn == qn", "s0 + s0", "-mn", "mn - 1", "nz * 1", "len(e0)", "len(s0)",
                "str::from(t3)", "typeof(e0)", "q2 = e0; q2", "q3 = mk0(); q3", "math::abs(mn)", "nz + nz", "min(1, 2)", "typeof(min)",
                "zz += 1", "zz *= 2", "a /= 0", "a %= 0", "c -= 1", "x += 1", "a &&= true", "mn -= 1", "a ^= 0.5",
+               "7", "1 + 1", " a", "a ", "f(a)", "a+b", " 7 ", "true ",
                "PI", "2 * PI", "E", "E = 3; E + 1", "TAU", "SQRT_2 * SQRT_2", "LN_2", "FRAC_PI_2", "pi", "math::pi",
                "1 / 0; (", "a = 1; )", "k = 8; b =", "missing; 1 +", "h(1); )", "a = 2; 1 2", "a = 2; (1,", "f(1); a = 3; \"",
                "nf(1)", "nf(1.5)", "nf(a)", "nf(b)", "nf(c)", "nn(c)", "nn(a)", "nf a", "nf(1) + 1", "nf(x)", "nn(y)", "nf(())"]
@@ -495,6 +497,12 @@ def c12_gen(tier, rng):
             ops = C12_SETUP + ["evc smv " + hexs(valid), "evc nrv " + hexs(valid)] + ["evc %s %s" % (rng.choice(["smv", "srv", "nmv", "sfv", "nfi", "srn"]), hexs(failing)) for _ in range(nfail)] + \
                   ["evc smv " + hexs(valid), "evc nrv " + hexs(valid), "evc sfv " + hexs("1 + (2 * 3)")]
             cases.append((G.script("H", ops), {"kind": "repeat", "src": valid, "failing": failing, "nfail": nfail, "nsetup": len(C12_SETUP)}))
+    # one evaluation per call of an entry point: every user function call of the program is made exactly once
+    for src, want_log in [("q9 = f(1); q9", "66(I1)"), ("f(1); q9 = 2", "66(I1)"), ("g(1, 2); q8 = f(3); q8", "67(T(I1,I2)),66(I3)"), ("q7 = (f(1), f(2)); q7", "66(I1),66(I2)"),
+                          ("f(1) + (q6 = 2; f(q6))", "66(I1),66(I2)"), ("f(5)", "66(I5)"), ("q5 = 1; q5 += f(2); q5", "66(I2)")]:
+        for code in ("smv", "nmv", "smi", "nmn", "sme", "smt", "srv"):
+            ops = C12_SETUP + ["ev %s %s" % (code, hexs(src))]
+            cases.append((G.script("H", ops), {"kind": "once", "src": src, "code": code, "want_log": want_log if code != "srv" or "=" not in src else None}))
     # a source that does not precompile has no effect at all, through any entry point
     for src in ["a = 1; )", "k = 8; (b =", "a = 2; 1 2", "a = 2; (1,", "q = 1; f(q); \"", "a += 1; a += 1; (", "f(1); g(1, 2); 1 +; )", "c = \"z\"; ))"]:
         for code in ("smv", "nmv", "smi", "sme", "nmt", "smn"):
@@ -513,6 +521,11 @@ def c12_gen(tier, rng):
 
 def c12_oracle(case, out, model_out):
     m = case[1]
+    if m.get("kind") == "once" and not out.startswith("PANIC") and m.get("want_log") is not None and "LOG[" in out:
+        lg = out[out.index("LOG[") + 4:out.rindex("]")]
+        if lg != m["want_log"]:
+            return "one call of entry point %s on %r makes the user function calls [%s]; the program calls [%s], each once" % (m["code"], m["src"], lg, m["want_log"])
+        return None
     if m.get("kind") == "repeat" and not out.startswith("PANIC"):
         st = step_outputs(out)[m["nsetup"]:]
         if st[0] != st[-3] or st[1] != st[-2] or st[-1] != "OK I7":
@@ -1001,6 +1014,18 @@ def c13_gen(tier, rng):
     for cx in ctxs:
         for fr in frags:
             cases.append(c13_case(cx.format(fr).split()))
+    r0 = G.random.Random(0)
+    for alpha, lens in ((["true", "false", "&&", "||", "*", "<", "==", "(", ")", "!"], (2, 3, 4)), (["1", "a", "+", "-", "/", "%", "^", ",", ";", "!="], (2, 3, 4))):
+        for n_ in lens:
+            for seq in itertools.product(alpha, repeat=n_):
+                toks = list(seq)
+                tight = G.render(toks, r0, "tight")
+                if tight == " ".join(toks):
+                    continue
+                case = c13_case(toks)
+                ops = C13_SETUP + ["evc build " + hexs(tight), "evc smv " + hexs(tight), "evc sfv " + hexs(tight), "evc srv " + hexs(tight)]
+                meta = dict(case[1]); meta["src"] = tight
+                cases.append((G.script("H", ops), meta))
     for a_, b_ in (("=", "="), ("!", "="), ("<", "="), (">", "="), ("+", "="), ("-", "="), ("*", "="), ("/", "="), ("%", "="), ("^", "="), ("&&", "="), ("||", "=")):
         for sep in ("/**/", "/* c */", "//\n", "/**//**/"):
             if a_ == "/" and sep.startswith("/"):
